@@ -258,6 +258,13 @@ class Calls(Interp):
     def shape_attr(self, obj, shape, attr, node, default=None):
         c = self.reg.shape_method(shape, attr)
         if c is not None:
+            if c.optional and not self.spec_mode:
+                present = has_attr(self.refof(obj), z3.StringVal(attr))
+                if default is not None:
+                    if not self.branch(present, "has %s" % attr):
+                        return default
+                elif not self.branch(present, "has %s" % attr):
+                    self.raise_builtin("AttributeError", node)
             if c.event == "property":
                 return self.apply_contract(c, obj, [], {}, node, mname=attr)
             return BoundV(obj, c, attr)
@@ -753,7 +760,11 @@ class Calls(Interp):
             self.old_stack.append(old_heap)
             try:
                 if not exceptional:
-                    res = self.fresh_result(c.returns)
+                    if c.value is not None:
+                        rv = self.spec_value(parse_expr(c.value), env)
+                        res = SV(self.to_term(rv, node), c.returns) if not isinstance(rv, SV) or rv.ty is None else rv
+                    else:
+                        res = self.fresh_result(c.returns)
                     env2 = dict(env)
                     env2["ret"] = res
                     if "result" not in env or func is None and c.signature is None:
@@ -973,7 +984,8 @@ class Calls(Interp):
                     return BoolSV(True)
                 return BoolSV(self.get_field(self.refof(obj), name) != Val.absent)
             if kind in self.reg.shapes:
-                if self.reg.shape_method(kind, name) is not None:
+                sm = self.reg.shape_method(kind, name)
+                if sm is not None and not sm.optional:
                     return BoolSV(True)
                 return BoolSV(has_attr(self.refof(obj), z3.StringVal(name)))
         self.unsupported(node, "hasattr on %r" % (obj,))
@@ -1180,6 +1192,9 @@ class Calls(Interp):
         return SV(Val.none, "none")
 
     def bi_iter(self, args, kwargs, node):
+        c = self.reg.contracts.get("lib:iter")
+        if c is not None:
+            return self.apply_contract(c, None, args, kwargs, node, None, None, mname="iter")
         self.unsupported(node, "iter()")
 
     def bi_property(self, args, kwargs, node):
@@ -1201,6 +1216,39 @@ class Calls(Interp):
     def bm_list_append(self, recv, args, kwargs, node):
         self.set_list(recv, z3.Concat(self.list_of(recv), z3.Unit(self.to_term(args[0], node))))
         return SV(Val.none, "none")
+
+    def sort_function(self, key, reverse=False):
+        """the uninterpreted function `stable sort by this key`: one symbol per key function TEXT (a changed key is another function)"""
+        import hashlib
+        if key is None:
+            tag = "natural"
+        elif isinstance(key, FuncV) and isinstance(key.node, ast.Lambda):
+            tag = hashlib.md5(ast.dump(key.node).encode()).hexdigest()[:10]
+        else:
+            return None
+        return z3.Function("sorted!%s%s" % (tag, "!rev" if reverse else ""), SeqV, SeqV)
+
+    def bm_list_sort(self, recv, args, kwargs, node):
+        key = kwargs.get("key")
+        rev = kwargs.get("reverse")
+        if rev is not None and not (isinstance(rev, SV) and z3.is_true(z3.simplify(self.truthy(rev, node)))):
+            self.unsupported(node, "list.sort(reverse=<non-constant>)")
+        fn = self.sort_function(key, rev is not None)
+        if fn is None or args:
+            self.unsupported(node, "list.sort with this key")
+        old = self.list_of(recv)
+        new = fn(old)
+        self.assume(z3.Length(new) == z3.Length(old))      # a permutation: same length (membership: background axiom of sorted!*)
+        self.set_list(recv, new)
+        return SV(Val.none, "none")
+
+    def sp_sorted_by(self, args, kwargs, node):
+        """sorted_by(seq, 'lambda item: ...'): the same uninterpreted sort function the code's list.sort(key=<that lambda>) denotes"""
+        src = self.const_str(args[1], node)
+        lam = ast.parse(src, mode="eval").body
+        fn = self.sort_function(FuncV(lam, None), False)
+        seq = self.as_seq(args[0], node)
+        return PSeq(fn(seq))
 
     def bm_list_extend(self, recv, args, kwargs, node):
         self.set_list(recv, z3.Concat(self.list_of(recv), self.as_seq(args[0], node)))
@@ -1481,6 +1529,39 @@ class Calls(Interp):
             seq, _ = self.iter_seq(v, node)
             return seq
         return super().as_seq(v, node)
+
+    def ev_DictComp(self, node):
+        """{k: e for k, v in d.items() if c}: pointwise definition of a new dict over the keys of d (pure e and c; the key
+        expression must be the key variable itself, so distinct source keys stay distinct)"""
+        if len(node.generators) != 1:
+            self.unsupported(node, "nested dict comprehension")
+        g = node.generators[0]
+        it = self.ev(g.iter)
+        if not (isinstance(it, ItemsV) and it.what == "items" and isinstance(g.target, ast.Tuple) and len(g.target.elts) == 2
+                and all(isinstance(t, ast.Name) for t in g.target.elts) and isinstance(node.key, ast.Name)
+                and node.key.id == g.target.elts[0].id):
+            self.unsupported(node, "dict comprehension (only {k: e for k, v in d.items() if c})")
+        m = self.as_map(it.dictval, node)
+        x = z3.Const("dk!%d_%d" % (node.lineno, so._fresh[0]), Val)
+        so._fresh[0] += 1
+        arg = parse_tag(it.dictval.ty)[1] if isinstance(it.dictval, SV) else None
+        kt = vt = None
+        if arg and "=>" in arg:
+            kt, vt = [t.strip() for t in arg.split("=>", 1)]
+        self.spec_envs.append({g.target.elts[0].id: SV(x, kt), g.target.elts[1].id: SV(m[x], vt)})
+        saved = self.spec_mode
+        self.spec_mode += 1
+        try:
+            conds = [self.truthy(self.ev(c), node) for c in g.ifs]
+            val = self.to_term(self.ev(node.value), node)
+        finally:
+            self.spec_mode = saved
+            self.spec_envs.pop()
+        out = so.fresh("dcomp", KwMap)
+        self.assume(z3.ForAll([x], out[x] == z3.If(z3.And([m[x] != Val.absent] + conds), val, Val.absent), patterns=[out[x]]))
+        if self.spec_mode:
+            return PMap(out)
+        return self.new_dict(out)
 
     # ------------------------------------------------------------- spec level
     def eval_iter0(self, expr):
@@ -1836,8 +1917,26 @@ class Calls(Interp):
             old_alloc = self.comp("$alloc", State())
         return BoolSV(self.refof(args[0], node) < old_alloc)
 
+    def sp_allocated_now(self, args, kwargs, node):
+        """object exists in the current state"""
+        return BoolSV(self.refof(args[0], node) < self.comp("$alloc"))
+
+    def sp_LIST(self, args, kwargs, node):
+        return PRaw(self.comp("$list"))
+
+    def sp_at(self, args, kwargs, node):
+        """at(s, i): element i of a sequence for an index known to be in range (no negative-index normalisation)"""
+        seq = self.as_seq(args[0], node)
+        return self.from_term(seq[self.as_int(args[1], node)], self.elem_tag(args[0]) if isinstance(args[0], SV) else None)
+
+    def sp_extclass(self, args, kwargs, node):
+        """a library class by dotted name, independent of what the current module imports"""
+        return ClassV(ext=self.const_str(args[0], node))
+
     def sp_typeof_is(self, args, kwargs, node):
         cv = args[1]
+        if isinstance(cv, ExtV):
+            cv = ClassV(ext=cv.dotted)
         return BoolSV(so.typeof(self.refof(args[0], node)) == self.class_id(cv.info if cv.info is not None else cv.ext))
 
     def sp_subclass_of(self, args, kwargs, node):
